@@ -135,7 +135,8 @@ def cmdInvGate : List String → String
   | [rs, ks] =>
     match ArithTy.ofName? rs, parseMag? ks with
     | some R, some K =>
-      s!"compiles={b01 (inverseImplicitCompiles R K)} thr={valStr (thresholdOf R)} unity={resStr valStr (unityIn R K)}"
+      let thr := match thresholdOf R with | some v => valStr v | none => "narrowing"
+      s!"compiles={b01 (inverseImplicitCompiles R K)} thr={thr} unity={resStr valStr (unityIn R K)}"
     | _, _ => "bad-op"
   | _ => "bad-op"
 
